@@ -410,14 +410,17 @@ fn schedule(nthreads: usize, steps: &str) -> String {
         })
         .collect();
     let parsed = Arc::new(parsed);
-    let turn = Arc::new((Mutex::new(0usize), Condvar::new()));
+    // one gate per step (opened by the step before it): a single shared condition variable would wake every waiting thread at
+    // every step, which is quadratic with thousands of threads
+    let gates: Arc<Vec<(Mutex<bool>, Condvar)>> =
+        Arc::new((0..parsed.len() + 1).map(|i| (Mutex::new(i == 0), Condvar::new())).collect());
     let results = Arc::new(Mutex::new(vec![String::new(); parsed.len()]));
     let mut handles = Vec::new();
     for t in 0..nthreads {
         let parsed = parsed.clone();
-        let turn = turn.clone();
+        let gates = gates.clone();
         let results = results.clone();
-        handles.push(std::thread::spawn(move || {
+        handles.push(std::thread::Builder::new().stack_size(256 * 1024).spawn(move || {
             let table = dnssector::c_abi::fn_table();
             let base: Vec<u8> = vec![0, 7, 0x81, 0x80, 0, 1, 0, 0, 0, 0, 0, 0, 1, b'q', 0, 0, 1, 0, 1];
             let mut pp = DNSSector::new(base).unwrap().parse().unwrap();
@@ -426,10 +429,12 @@ fn schedule(nthreads: usize, steps: &str) -> String {
                 if *st != t {
                     continue;
                 }
-                let (lock, cv) = &*turn;
-                let mut g = lock.lock().unwrap();
-                while *g != i {
-                    g = cv.wait(g).unwrap();
+                {
+                    let (lock, cv) = &gates[i];
+                    let mut g = lock.lock().unwrap();
+                    while !*g {
+                        g = cv.wait(g).unwrap();
+                    }
                 }
                 let out = unsafe {
                     match act {
@@ -471,10 +476,11 @@ fn schedule(nthreads: usize, steps: &str) -> String {
                     }
                 };
                 results.lock().unwrap()[i] = out;
-                *g += 1;
+                let (lock, cv) = &gates[i + 1];
+                *lock.lock().unwrap() = true;
                 cv.notify_all();
             }
-        }));
+        }).unwrap());
     }
     for h in handles {
         if h.join().is_err() {
@@ -639,6 +645,16 @@ fn run_op(ctx: &mut Ctx, op: &str) -> String {
             let z = if f[2] == "-" { None } else { Some(unhex(f[2])) };
             match r#gen::raw_name_from_str(&n, z.as_deref()) {
                 Ok(v) => format!("OK:{}", hex(&v)),
+                Err(e) => err(&e),
+            }
+        }
+        "ZP" => {
+            // copy_raw_name_from_str appending to a buffer that already holds bytes: ZP,<prefix>,<name>,<zone|->
+            let mut v = unhex(f[1]);
+            let n = unhex(f[2]);
+            let z = if f[3] == "-" { None } else { Some(unhex(f[3])) };
+            match r#gen::copy_raw_name_from_str(&mut v, &n, z.as_deref()) {
+                Ok(()) => format!("OK:{}", hex(&v)),
                 Err(e) => err(&e),
             }
         }
@@ -841,8 +857,32 @@ fn type_of(t: u16) -> Type {
 fn main() {
     panic::set_hook(Box::new(|_| {}));
     let stdin = io::stdin();
-    let stdout = io::stdout();
-    let mut w = io::BufWriter::new(stdout.lock());
+    // Output goes through a shared buffer so that the watchdog can flush it: a case that runs longer than
+    // DV_CASE_LIMIT_MS (default 20 s) is reported as `<id>\tHANG` and the process exits (the cases after it are
+    // run again by the caller). Non-termination is thereby an observation like any other, not a lost shard.
+    let limit_ms: u128 = std::env::var("DV_CASE_LIMIT_MS").ok().and_then(|v| v.parse().ok()).unwrap_or(20000);
+    let state: std::sync::Arc<std::sync::Mutex<(Vec<u8>, Option<(String, std::time::Instant)>)>> =
+        std::sync::Arc::new(std::sync::Mutex::new((Vec::new(), None)));
+    {
+        let state = state.clone();
+        std::thread::spawn(move || loop {
+            std::thread::sleep(std::time::Duration::from_millis(100));
+            let mut g = state.lock().unwrap();
+            let hung = match &g.1 {
+                Some((id, t0)) if t0.elapsed().as_millis() > limit_ms => Some(id.clone()),
+                _ => None,
+            };
+            if let Some(id) = hung {
+                let mut out = std::mem::take(&mut g.0);
+                out.extend_from_slice(format!("{}\tHANG\n", id).as_bytes());
+                let so = io::stdout();
+                let mut so = so.lock();
+                let _ = so.write_all(&out);
+                let _ = so.flush();
+                std::process::exit(0);
+            }
+        });
+    }
     for line in stdin.lock().lines() {
         let line = line.unwrap();
         if line.is_empty() {
@@ -850,6 +890,7 @@ fn main() {
         }
         let mut parts = line.split('\t');
         let id = parts.next().unwrap();
+        state.lock().unwrap().1 = Some((id.to_string(), std::time::Instant::now()));
         let mut ctx = Ctx { pp: None };
         let mut obs: Vec<String> = Vec::new();
         for op in parts {
@@ -862,6 +903,21 @@ fn main() {
                 }
             }
         }
-        writeln!(w, "{}\t{}", id, obs.join("\t")).unwrap();
+        let mut g = state.lock().unwrap();
+        g.1 = None;
+        g.0.extend_from_slice(format!("{}\t{}\n", id, obs.join("\t")).as_bytes());
+        if g.0.len() > (1 << 16) {
+            let out = std::mem::take(&mut g.0);
+            let so = io::stdout();
+            let mut so = so.lock();
+            so.write_all(&out).unwrap();
+            so.flush().unwrap();
+        }
     }
+    let mut g = state.lock().unwrap();
+    let out = std::mem::take(&mut g.0);
+    let so = io::stdout();
+    let mut so = so.lock();
+    so.write_all(&out).unwrap();
+    so.flush().unwrap();
 }
